@@ -1,6 +1,6 @@
 ------------------------------ MODULE MiniPyTrace ------------------------------
 (* Trace specification for C01.  One line per execution of a generated function:                     *)
-(*   {tid, evals: [[node index, runtime value (object term), inferred type (type term)], ...]}       *)
+(*   {tid, tx, ty, prog, evals: [[node index, runtime value (object term), inferred type (type term)], ...]} *)
 (* recorded by instrumented execution under CPython; the inferred types are read from the tree       *)
 (* annotated by the real checker.  Accepted iff every evaluated node's value is a member of its      *)
 (* inferred type (a node inferred as Never therefore must not appear).                               *)
@@ -13,7 +13,9 @@ Say(tid, v) == PrintT(<<"VERDICT", tid, v>>)
 Judge(o) ==
     \A i \in 1..Len(o.evals) :
         LET e == [node |-> o.evals[i][1], val |-> o.evals[i][2], inferred |-> o.evals[i][3]]
+            cls == DevClass(o)
         IN IF Sound(e) THEN TRUE
+           ELSE IF cls # "none" THEN Say(o.tid, "dev:" \o cls)
            ELSE IF e.inferred = Never THEN Say(o.tid, "viol:NeverIsNeverReached:" \o ToString(i))
            ELSE Say(o.tid, "viol:Sound:" \o ToString(i))
 
